@@ -92,6 +92,8 @@ pub enum UiOp {
     /// the same, but without the initial tick: strictly notification driven
     DrainNotified(u64),
     Dump,
+    /// wait until nothing is runnable (threads held by a rule do not count)
+    WaitQuiet,
     /// forced replay: hold role/site until another role/site has happened (see sched::Rule)
     Rule(&'static str, &'static str, &'static str, &'static str),
     /// once (role, site) has happened, hold (role, site) until (role, site)
@@ -311,6 +313,9 @@ pub fn run_scenario(sc: &Scenario, policy: Policy, run_id: u64, lines: &mut Vec<
                 sched.user("joined", String::new());
             }
             UiOp::Dump => ui_dump(&nucleo, &cx),
+            UiOp::WaitQuiet => {
+                sched.wait_quiet(Duration::from_millis(4));
+            }
             UiOp::RuleAfter(ar, a_s, br, bs, ur, us) => {
                 sched.add_rule_after((ar, a_s), (br, bs), (ur, us));
                 sched.user("rule", format!("\"after\":\"{}@{}\",\"block\":\"{}@{}\",\"until\":\"{}@{}\"", ar, a_s, br, bs, ur, us));
@@ -424,6 +429,10 @@ pub fn scenarios(thorough: bool, rng: &mut StdRng) -> Vec<Scenario> {
     s("empty-pattern-inflight", 1, 1, vec![NewInjector(1), StartWriter(0), Tick(0), Tick(0), Tick(5), JoinWriters, DrainNotified(10)], vec![(1, vec![Push(1)])]);
     s("empty-pattern-inflight-2", 2, 1, vec![NewInjector(1), NewInjector(2), StartWriter(0), StartWriter(1), Tick(0), Tick(0), Tick(5), JoinWriters, DrainNotified(10)],
       vec![(1, vec![Push(1)]), (2, vec![Push(2), Push(3)])]);
+    s("empty-pattern-inflight-forced", 1, 1, vec![NewInjector(1), RuleAfter("w1", "atomic.fetch_add", "w1", "", "pool", "run.end"), StartWriter(0), WaitQuiet, Tick(50), JoinWriters, DrainNotified(10)],
+      vec![(1, vec![Push(1)])]);
+    s("pattern-inflight-forced", 2, 1, vec![NewInjector(1), Reparse(1), RuleAfter("w1", "atomic.fetch_add", "w1", "", "pool", "run.end"), StartWriter(0), WaitQuiet, Tick(50), JoinWriters, DrainNotified(10)],
+      vec![(1, vec![Push(1)])]);
     // an append edit that cancels a scan in progress, then quiescence without any non-append edit
     s("append-cancels-scan", 3, 1, vec![NewInjector(1), StartWriter(0), JoinWriters, Reparse(1), Tick(0), Reparse(2), Tick(0), Drain(10)],
       vec![(1, vec![Extend(vec![0, 1, 3, 7, 8, 9, 10, 12, 13, 15, 19, 20])])]);
